@@ -24,6 +24,10 @@ def alphabet(tier):
 
 
 SHAPES_Q = ((1, 2), (1, 3), (2, 2))
+# values in units of the quantisation step 2**(k-7): fractional parts make the packed byte round up or down,
+# +-127.9 / +-128.2 sit at the edge of the byte range relative to the previously UNPACKED neighbour
+UNITS = (0., 0.3, 0.7, 10.7, -117.2, 127.9, -127.9, 117.2, 64.4, 0.5)
+UNIT_EXPS = (9, 0, -20)
 
 
 class Prop(core.Prop):
@@ -43,6 +47,8 @@ class Prop(core.Prop):
 
     def bounds(self, tier):
         return {'alphabet_size': len(alphabet(tier)), 'shapes': SHAPES_Q + (((2, 3),) if tier == 'thorough' else ()),
+                'chains': {'units': UNITS, 'exponents': UNIT_EXPS, 'length': [3, 4, 5] if tier == 'thorough' else [3, 4],
+                           'orientation': ['column', 'row']},
                 'file_recipes': 'times 1-3 x levels 1-2 x nsfc 1-2 x nupper 1-2 x 3 patterns'}
 
     def worker_init(self):
@@ -62,10 +68,19 @@ class Prop(core.Prop):
             for first in sub:
                 for second in sub:
                     yield {'part': 'field', 'shape': [2, 3], 'first': first, 'second': second, 'sub': sub}
+        # chains along the first column (rows are packed relative to the row above) and along the first row
+        for k in UNIT_EXPS:
+            for n in ((3, 4, 5) if tier == 'thorough' else (3, 4)):
+                for orient in ('column', 'row'):
+                    for u0 in range(len(UNITS)):
+                        yield {'part': 'chain', 'k': k, 'n': n, 'orient': orient, 'u0': u0}
         yield {'part': 'special'}
         for nt in (1, 2, 3):
             for nlev in (1, 2):
                 yield {'part': 'file', 'nt': nt, 'nlev': nlev}
+        # grids with 1000 or more points along one axis (thousands are stored as letters in the label)
+        for grid in ([1002, 3], [3, 1100]) + (([2001, 3],) if tier == 'thorough' else ()):
+            yield {'part': 'file', 'nt': 2, 'nlev': 1, 'grid': list(grid), 'big': True}
 
     def expand(self, group):
         a = alphabet(self.tier)
@@ -78,12 +93,21 @@ class Prop(core.Prop):
             else:
                 for rest in itertools.product(range(len(a)), repeat=n - 1):
                     yield {'part': 'field', 'shape': group['shape'], 'idx': [group['first']] + list(rest)}
+        elif group['part'] == 'chain':
+            for rest in itertools.product(range(len(UNITS)), repeat=group['n'] - 1):
+                # (the statement quantifies over fields with at least two columns)
+                others = (2,) if self.tier != 'thorough' else ((2, 3) if group['orient'] == 'column' else (1, 2))
+                for other in others:
+                    yield dict(group, us=[group['u0']] + list(rest), other=other)
         elif group['part'] == 'special':
             for v in (0., 1., -273.15, 1e30, 1e-30):
                 yield {'part': 'special', 'kind': 'constant', 'v': v, 'shape': [2, 3]}
             for step in (0.5, -0.5, 0.25, -0.25, 1.0, -1.0, 2. ** 15, -(2. ** 15), 0.1, -0.1, 1e-3):
                 for shape in ([1, 64], [3, 3], [4, 16]):
                     yield {'part': 'special', 'kind': 'ramp', 'v': step, 'shape': shape}
+        elif group.get('big'):
+            yield dict(group, nsfc=1, nup=1, pattern='ramp')
+            yield dict(group, nsfc=2, nup=1, pattern='wave')
         else:
             for nsfc in (1, 2):
                 for nup in (1, 2):
@@ -94,6 +118,15 @@ class Prop(core.Prop):
         if case['part'] == 'file':
             return self.run_file(case)
         a = alphabet(self.tier)
+        if case['part'] == 'chain':
+            step = 2. ** (case['k'] - 7)
+            line = np.cumsum([UNITS[i] for i in case['us']]) * step + (100. if case['k'] > 0 else 0.)
+            f = np.repeat(line[:, None], case['other'], axis=1)
+            # the other axis varies by whole steps only
+            f = f + (np.arange(case['other']) % 3)[None, :] * step
+            if case['orient'] == 'row':
+                f = f.T.copy()
+            return self.check_field(f, case)
         if case['part'] == 'field':
             f = np.array([a[i] for i in case['idx']], dtype='d').reshape(case['shape'])
         elif case['kind'] == 'constant':
@@ -156,7 +189,7 @@ class Prop(core.Prop):
     # ------------------------------------------------------------------
     def run_file(self, case):
         P = lib.pnc()
-        nx, ny = 20, 16
+        nx, ny = case.get('grid', (20, 16))
         nt, nlev, nsfc, nup, pat = case['nt'], case['nlev'], case['nsfc'], case['nup'], case['pattern']
 
         def field(seed):
@@ -180,7 +213,7 @@ class Prop(core.Prop):
             fh.write(raw)
         st = [h64(raw)]
         sig = ('arlpackedbit',)
-        scope = dict(nt=nt, nlev=nlev, nsfc=nsfc, nup=nup, pattern=pat)
+        scope = dict(nt=nt, nlev=nlev, nsfc=nsfc, nup=nup, pattern=pat, grid='%dx%d' % (nx, ny))
         vs = []
         try:
             f = P.pncopen(path, format='arlpackedbit')
